@@ -240,7 +240,15 @@ func (pt *prattTables) extractSymbols(c *Ctx, r *Result) bool {
 			return false
 		}
 		r1, _ := constant.Int64Val(k.Value)
-		for _, pe := range inner.Elts {
+		pairs := inner.Elts
+		// an entry may be the list of pairs for this first rune, or (when no two symbols share
+		// their first rune) the pair itself
+		if it := pt.pkg.TypesInfo.TypeOf(inner); it != nil {
+			if _, isStruct := it.Underlying().(*types.Struct); isStruct {
+				pairs = []ast.Expr{inner}
+			}
+		}
+		for _, pe := range pairs {
 			pl, ok := pe.(*ast.CompositeLit)
 			if !ok || len(pl.Elts) != 2 {
 				r.LoseAnchor("PRATT: symbols2 has an unexpected pair")
